@@ -1,0 +1,18 @@
+//go:build verif
+
+package ioutils
+
+// Ghost scenarios used by the contracts in zz_contracts_verif.go: they call the real methods in a fixed sequence so
+// that a property of the sequence (not of one call) becomes an obligation over one call trace.
+
+// verifCloseTwice closes the same reader twice.
+func verifCloseTwice(r *readCloserWithCloseHook) {
+	_ = r.Close()
+	_ = r.Close()
+}
+
+// verifSeekCloseTwice closes the same seekable reader twice.
+func verifSeekCloseTwice(r *readSeekCloserWithCloseHook) {
+	_ = r.Close()
+	_ = r.Close()
+}
